@@ -9,8 +9,13 @@ MANIFEST = dict(
     text=("Coq theorems (offset range/bijection/injectivity, sub-tensor/vector/matrix views, slices, reshape with one "
           "inferred dimension, gather, summed-area table = naive prefix sums) about an executable model whose arithmetic steps are regenerated from "
           "dims.h/tensor.h on every run by tools/translate.py; the extracted model is compared with the real tensor "
-          "classes (ASan+UBSan) on an exhaustive enumeration of small shapes and random large ones. Storage "
-          "conversions are searched, not proved."),
+          "classes (ASan+UBSan) on an exhaustive enumeration of small shapes and random large ones. The three tensor "
+          "storages (owning / mapping / constant mapping) and their conversions are a heap model (freed buffers read "
+          "None) with 5 theorems: owning := view copies before it frees -- also for a view into the destination's own "
+          "buffer --, constructors, views alias, frame; STO scripts executed by the real tensors (self-aliasing and "
+          "disjoint cases, every slice of every enumerated shape) are replayed by the extracted model. The summed-area "
+          "table is also run with input scalars narrower than the output scalar at the limits of the input type "
+          "(accumulation must happen in the output type)."),
     note=("Coq kernel; translator (13 kernels); extraction (ExtrOcamlBasic); harness + OCaml driver; NDEBUG build: only "
           "valid accesses explored; Eigen Map/vector storage modelled as a flat list."),
     technique="Coq proof over a translated+extracted model, exhaustive differential correspondence",
